@@ -472,6 +472,14 @@ func (h *handler) pickAction(ci *connInfo, cb string) gnet.Action {
 			h.rec.mu.Unlock()
 			return gnet.Shutdown
 		}
+		if h.cfg.scenario == "flood-then-shutdown" && cb == "traffic" && ci.traffic == 2 {
+			// the OnTraffic of the Wake that was queued behind the backlog (in the low-priority queue)
+			h.rec.mu.Lock()
+			h.rec.shutdown = true
+			h.rec.shutdownAsked = true
+			h.rec.mu.Unlock()
+			return gnet.Shutdown
+		}
 		if h.cfg.scenario == "shutdown-from-onclose" && cb == "close" {
 			h.rec.mu.Lock()
 			h.rec.shutdown = true
@@ -1170,7 +1178,7 @@ func (h *handler) scenarioScript(ci *connInfo, cb string) {
 		if cb == "traffic" {
 			h.doCall(ci, "next", -1, nil, false)
 		}
-	case "async-flood":
+	case "async-flood", "flood-then-shutdown":
 		if cb == "traffic" && ci.traffic == 1 {
 			h.doCall(ci, "next", -1, nil, false)
 			select {
